@@ -250,7 +250,7 @@ def main():
     chk.maybe_replay()
     sopht_modules()
     ne_list = [2] if chk.quick else [2, 3]
-    tapers = ["uniform", "linear"] if chk.quick else ["uniform", "linear", "thin"]
+    tapers = ["uniform", "linear", "thin"]
     for ne in ne_list:
         for taper in tapers:
             for dim in (2, 3):
